@@ -184,7 +184,7 @@ Proof.
     destruct (lookup e h) as [[i hi]|]; [|reflexivity].
     destruct (lookup e a0) as [[j ai]|]; [|reflexivity].
     destruct (hi_height ai >? hi_height hi); [reflexivity|].
-    destruct (hi_height ai =? hi_height hi); [reflexivity|].
+    destruct (hi_height ai =? hi_height hi); [destruct (Nat.eqb i j); reflexivity|].
     destruct (e_anc e i (hi_height ai)) as [k|]; [|reflexivity].
     destruct (negb (Nat.eqb k j)); [reflexivity|].
     destruct (e_between e j i); reflexivity.
